@@ -60,7 +60,7 @@ def gen_vectors(ctx, thorough):
                 timeout=900, label="ReflectGen[systematic]")
     fvs = ctx.tlc_cases(r)
     if thorough:
-        r = ctx.tlc("Reflect", "MC_ReflectGen", "rnd.cfg", mode="simulate", simulate=3, depth=60, workers=16,
+        r = ctx.tlc("Reflect", "MC_ReflectGen", "rnd.cfg", mode="simulate", simulate=2, depth=60, workers=16,
                     files={"rnd.cfg": GEN_CFG % ("random", "FALSE", "FALSE")}, timeout=900, label="ReflectGen[random]")
         seen = set()
         for fv in ctx.tlc_cases(r):
@@ -407,16 +407,15 @@ def driver_code(lab, cids, progs, imgs):
     return regs, extra_imports, "\n".join(lines)
 
 
-def compiled(ctx, fvs, progs, imgs, descs, optsets):
-    """one lab batch: every program under every option set"""
+def compiled(ctx, fvs, progs, imgs, descs, plan):
+    """one lab batch; plan: list of (program index, extra options)"""
     lab = ReflLab(ctx, "lab")
     cids, meta = [], []
-    for oi, opts in enumerate(optsets):
-        for k, prog in enumerate(progs):
-            cid = "p%do%d" % (k, oi)
-            lab.add_case(cid, prog, ["with_reflection"] + opts)
-            cids.append(cid)
-            meta.append((k, opts))
+    for n, (k, opts) in enumerate(plan):
+        cid = "p%dc%d" % (k, n)
+        lab.add_case(cid, progs[k], ["with_reflection"] + opts)
+        cids.append(cid)
+        meta.append((k, opts))
     lab.generate()
     for cid in cids:
         c = lab.cases[cid]
@@ -468,28 +467,66 @@ def compiled(ctx, fvs, progs, imgs, descs, optsets):
     return traces, tmeta
 
 
+def answers_guard(traces):
+    """vacuity: every kind of lookup was answered with a descriptor at least once, the ones that can cross files also
+    with a descriptor of another file, and nil answers for not-yet-registered includes were seen"""
+    hit, cross, early = {}, {}, 0
+    for t in traces:
+        nreg = 0
+        for e in t["events"]:
+            if e["op"] == "reg":
+                nreg += 1
+            for q in e["qs"]:
+                k = q["q"]
+                if q["rf"] > 0 or q["rj"] > 0 or (k == "togo" and q["ri"] > 0):
+                    hit[k] = hit.get(k, 0) + 1
+                    if q["rf"] > 0 and q["rf"] != q["f"]:
+                        cross[k] = cross.get(k, 0) + 1
+                elif k == "get" and q["pre"] and nreg < len(t["order"]) and not q["err"]:
+                    early += 1
+    for k in ("fd", "inc", "get", "lookup", "glob", "method", "svcmethod", "parent", "fieldid", "fieldname", "tref", "own",
+              "togo", "bygo"):
+        if not hit.get(k):
+            raise vlib.MachineryError("vacuous: no non-nil answer to any %r lookup" % k)
+    for k in ("inc", "get", "lookup", "method", "parent", "tref"):
+        if not cross.get(k):
+            raise vlib.MachineryError("vacuous: no %r lookup was answered with a descriptor of another file" % k)
+    if not early:
+        raise vlib.MachineryError("vacuous: no lookup through an alias while the included file was not registered yet")
+
+
 # ------------------------------------------------------------------------------------------------ main
 def run(ctx, args):
-    if args.replay:
-        rp = json.load(open(args.replay))
-        raise vlib.MachineryError("replay: re-run `bin/check C15 --tier %s`; the case is %s" % (
-            ctx.tier, json.dumps(rp.get("case"))[:600]))
     thorough = ctx.tier == "thorough"
-    fvs = gen_vectors(ctx, thorough)
+    if args.replay:
+        # the whole pipeline on the one program of the recorded case (every source, every registration order)
+        rp = json.load(open(args.replay))
+        fvs = [rp["case"]["fv"]]
+        thorough = True
+    else:
+        fvs = gen_vectors(ctx, thorough)
     builders = [M.Builder(fv) for fv in fvs]
     progs = [b.program() for b in builders]
     imgs = [M.to_tla(p) for p in progs]
-    universe_guard(fvs, progs, imgs)
+    if not args.replay:
+        universe_guard(fvs, progs, imgs)
     vlib.log("universe: %d programs, %d files" % (len(progs), sum(len(i) for i in imgs)))
     descs, orders = run_model(ctx, imgs, "MC_Reflect")
     harness = ctx.build_harness("inproc")
     vlib.log("harness built")
     t1, m1 = inproc(ctx, harness, fvs, progs, imgs, descs, orders, 24 if thorough else 3, rereg_all=thorough)
     vlib.log("in-process: %d registry traces" % len(t1))
-    optsets = [[]] if not thorough else [[], ["naming_style=golint", "use_type_alias=false", "gen_setter"]]
-    t2, m2 = compiled(ctx, fvs, progs, imgs, descs, optsets)
+    plan = [(k, []) for k in range(len(progs))]
+    if thorough and not args.replay:
+        # a second option set (Go names and typedef representation change, the descriptors must not)
+        plan += [(k, ["naming_style=golint", "use_type_alias=false", "gen_setter"]) for k, fv in enumerate(fvs) if fv["rot"] < 2]
+    if args.replay and rp["case"].get("opts"):
+        plan = [(0, [o for o in rp["case"]["opts"] if o != "with_reflection"])]
+    t2, m2 = compiled(ctx, fvs, progs, imgs, descs, plan)
     vlib.log("compiled: %d registry traces" % len(t2))
     traces, tmeta = t1 + t2, m1 + m2
+    if not args.replay:
+        answers_guard(traces)
     accepted, rejected, diag = validate_traces(ctx, imgs, [{"p": t["p"], "kind": t["kind"], "events": t["events"]} for t in traces], "all")
     for i, t in enumerate(traces):
         k = tmeta[i]
